@@ -15,6 +15,7 @@ import cssutils
 import cssutils.script
 from checks.c03_roundtrip import LOSSLESS, Prefs, flatten_nested_comments
 from vlib import cssmodel as A
+from vlib.reported import reported_sub
 from vlib.runner import VERIF, Sub, Violation, frame_sig
 
 PROPERTY = 'C19'
@@ -690,3 +691,6 @@ def check_listed(case, ctx):
 
 
 SUBS.append(Sub('listed', check_listed, enumerate=listed_cases, shards_quick=1, shards_thorough=1))
+
+
+SUBS.append(reported_sub('C19'))
